@@ -44,37 +44,37 @@ namespace {
     const R nS = ref::norm(Sm), na = ref::norm(Am);
     c.nontrivial(N >= 2 && (nA > 0 || nB > 0) && (nonsym(Am, N) || nS > 0));
     // t2tost2
-    cmpS(c, S(A * a), ref::ddot(Ar, Am), 64 * u * nA * na + tiny, "C02.t2tost2.apply", "A*a");
-    cmpT(c, TT(s * A), ref::ddot(Sm, Ar), 64 * u * nA * nS + tiny, "C02.t2tost2.apply_left",
+    cmpS(c, S(A * a), ref::ddot(Ar, Am), 256 * u * nA * na + tiny, "C02.t2tost2.apply", "A*a");
+    cmpT(c, TT(s * A), ref::ddot(Sm, Ar), 256 * u * nA * nS + tiny, "C02.t2tost2.apply_left",
          "s*A");
-    cmpT(c, TT(s | A), ref::ddot(Sm, Ar), 64 * u * nA * nS + tiny, "C02.t2tost2.apply_left",
+    cmpT(c, TT(s | A), ref::ddot(Sm, Ar), 256 * u * nA * nS + tiny, "C02.t2tost2.apply_left",
          "s|A");
-    f4::cmp(c, TS(C * A), ref::ddot(Cr, Ar), N, SYM, NS, 64 * u * nC * nA + tiny,
+    f4::cmp(c, TS(C * A), ref::ddot(Cr, Ar), N, SYM, NS, 256 * u * nC * nA + tiny,
             "C02.t2tost2.product_st2tost2", "C*A");
-    f4::cmp(c, TS(A * D), ref::ddot(Ar, Dr), N, SYM, NS, 64 * u * nA * nD + tiny,
+    f4::cmp(c, TS(A * D), ref::ddot(Ar, Dr), N, SYM, NS, 256 * u * nA * nD + tiny,
             "C02.t2tost2.product_t2tot2", "A*D");
-    f4::cmp(c, TS(s ^ a), ref::otimes(Sm, Am), N, SYM, NS, 8 * u * nS * na + tiny,
+    f4::cmp(c, TS(s ^ a), ref::otimes(Sm, Am), N, SYM, NS, 128 * u * nS * na + tiny,
             "C02.t2tost2.dyadic", "s^a");
     f4::cmp(c, TS(2 * A - TS(s ^ a)), R(2) * Ar - ref::otimes(Sm, Am), N, SYM, NS,
-            16 * u * (2 * nA + nS * na) + tiny, "C02.t2tost2.lincomb", "2A - s^a");
+            256 * u * (2 * nA + nS * na) + tiny, "C02.t2tost2.lincomb", "2A - s^a");
     // st2tot2
-    cmpT(c, TT(B * s), ref::ddot(Br, Sm), 64 * u * nB * nS + tiny, "C02.st2tot2.apply", "B*s");
-    cmpS(c, S(a * B), ref::ddot(Am, Br), 64 * u * nB * na + tiny, "C02.st2tot2.apply_left",
+    cmpT(c, TT(B * s), ref::ddot(Br, Sm), 256 * u * nB * nS + tiny, "C02.st2tot2.apply", "B*s");
+    cmpS(c, S(a * B), ref::ddot(Am, Br), 256 * u * nB * na + tiny, "C02.st2tot2.apply_left",
          "a*B");
-    cmpS(c, S(a | B), ref::ddot(Am, Br), 64 * u * nB * na + tiny, "C02.st2tot2.apply_left",
+    cmpS(c, S(a | B), ref::ddot(Am, Br), 256 * u * nB * na + tiny, "C02.st2tot2.apply_left",
          "a|B");
-    f4::cmp(c, ST(D * B), ref::ddot(Dr, Br), N, NS, SYM, 64 * u * nD * nB + tiny,
+    f4::cmp(c, ST(D * B), ref::ddot(Dr, Br), N, NS, SYM, 256 * u * nD * nB + tiny,
             "C02.st2tot2.product_t2tot2", "D*B");
-    f4::cmp(c, ST(B * C), ref::ddot(Br, Cr), N, NS, SYM, 64 * u * nB * nC + tiny,
+    f4::cmp(c, ST(B * C), ref::ddot(Br, Cr), N, NS, SYM, 256 * u * nB * nC + tiny,
             "C02.st2tot2.product_st2tost2", "B*C");
-    f4::cmp(c, ST(a ^ s), ref::otimes(Am, Sm), N, NS, SYM, 8 * u * nS * na + tiny,
+    f4::cmp(c, ST(a ^ s), ref::otimes(Am, Sm), N, NS, SYM, 128 * u * nS * na + tiny,
             "C02.st2tot2.dyadic", "a^s");
     f4::cmp(c, ST(2 * B - ST(a ^ s)), R(2) * Br - ref::otimes(Am, Sm), N, NS, SYM,
-            16 * u * (2 * nB + nS * na) + tiny, "C02.st2tot2.lincomb", "2B - a^s");
+            256 * u * (2 * nB + nS * na) + tiny, "C02.st2tot2.lincomb", "2B - a^s");
     // compositions changing kind
-    f4::cmp(c, TTt(B * A), ref::ddot(Br, Ar), N, NS, NS, 64 * u * nA * nB + tiny,
+    f4::cmp(c, TTt(B * A), ref::ddot(Br, Ar), N, NS, NS, 256 * u * nA * nB + tiny,
             "C02.mixed.st2tot2_t2tost2", "B*A (t2tot2)");
-    f4::cmp(c, SS(A * B), ref::ddot(Ar, Br), N, SYM, SYM, 64 * u * nA * nB + tiny,
+    f4::cmp(c, SS(A * B), ref::ddot(Ar, Br), N, SYM, SYM, 256 * u * nA * nB + tiny,
             "C02.mixed.t2tost2_st2tot2", "A*B (st2tost2)");
   }
 
@@ -99,21 +99,21 @@ namespace {
     // t2tost2 -> t2tot2 : same linear map, the (symmetric) result stored as a
     // non symmetric tensor: same 3x3x3x3 array
     const TTt e1(A);
-    f4::cmp(c, e1, Ar, N, NS, NS, 8 * u * nA + tiny, "C02.convert.t2tost2_to_t2tot2",
+    f4::cmp(c, e1, Ar, N, NS, NS, 128 * u * nA + tiny, "C02.convert.t2tost2_to_t2tot2",
             "t2tot2(t2tost2)");
     TTt e2;
     convert(e2, A);
-    f4::cmp(c, e2, Ar, N, NS, NS, 8 * u * nA + tiny, "C02.convert.t2tost2_to_t2tot2",
+    f4::cmp(c, e2, Ar, N, NS, NS, 128 * u * nA + tiny, "C02.convert.t2tost2_to_t2tot2",
             "convert(t2tot2&,t2tost2)");
-    cmpT(c, TT(e1 * a), ref::ddot(Ar, Am), 64 * u * nA * ref::norm(Am) + tiny,
+    cmpT(c, TT(e1 * a), ref::ddot(Ar, Am), 256 * u * nA * ref::norm(Am) + tiny,
          "C02.convert.t2tost2_to_t2tot2", "t2tot2(A)*a = unsyme(A*a)");
     // t2tot2 -> t2tost2 : symmetric part of the result
     T4 Ds;
     REF_FOR4 Ds(i, j, k, l) = (Dr(i, j, k, l) + Dr(j, i, k, l)) / 2;
-    f4::cmp(c, TS(convertToT2toST2(D)), Ds, N, SYM, NS, 8 * u * nD + tiny,
+    f4::cmp(c, TS(convertToT2toST2(D)), Ds, N, SYM, NS, 128 * u * nD + tiny,
             "C02.convert.t2tot2_to_t2tost2", "convertToT2toST2(D)");
     cmpS(c, S(TS(convertToT2toST2(D)) * a), ref::sym(ref::ddot(Dr, Am)),
-         64 * u * nD * ref::norm(Am) + tiny, "C02.convert.t2tot2_to_t2tost2",
+         256 * u * nD * ref::norm(Am) + tiny, "C02.convert.t2tot2_to_t2tost2",
          "convertToT2toST2(D)*a = syme(D*a)");
   }
 
@@ -140,12 +140,12 @@ namespace {
     // last (see findings/pending/C02.json).
     const M3 expected = ref::ddot(Ar, Sm);
     const S got = r * s;
-    const R tolc = 64 * u * nA * ref::norm(Sm) + tiny;
+    const R tolc = 256 * u * nA * ref::norm(Sm) + tiny;
     bool shear_arg = false;
     for (int k = 3; k < ref::stensorSize(N); ++k) shear_arg = shear_arg || s[k] != 0;
     const auto v = ref::toStensor(expected);
     auto component = [&](int I, int J) {
-      c.close(static_cast<R>(r(I, J)), ref::componentOf(Asym, I, SYM, J, SYM), 8 * u * nA + tiny,
+      c.close(static_cast<R>(r(I, J)), ref::componentOf(Asym, I, SYM, J, SYM), 128 * u * nA + tiny,
               (I >= 3 && J >= 3) ? "C02.convert.t2tost2_to_st2tost2.shear_block"
                                  : "C02.convert.t2tost2_to_st2tost2",
               "convert(A) component (" + std::to_string(I) + "," + std::to_string(J) + ")");
